@@ -685,7 +685,17 @@ class CliEngine(object):
         out["trace"]["real_env"] = envname
         try:
             if envname == "pty":
-                real = run_real_pty(item["argv"], item["script"])
+                try:
+                    real = run_real_pty(item["argv"], item["script"])
+                except subprocess.TimeoutExpired:
+                    raise
+                except Exception as e:  # noqa: B902 - OSError, termios.error, ImportError ...
+                    # no pseudo-terminals in this sandbox (/dev/ptmx missing, termios absent): pipes instead
+                    out["counters"]["pty_unavailable"] = 1
+                    out.setdefault("notes", []).append("pseudo-terminal unavailable (%s): run repeated on pipes" % (e,))
+                    envname = "utf-8"
+                    out["trace"]["real_env"] = envname
+                    real = run_real(item["argv"], item["script"], envname=envname)
             else:
                 real = run_real(item["argv"], item["script"], envname=envname)
         except subprocess.TimeoutExpired:
